@@ -1,10 +1,5 @@
-mod alloc_count;
-mod engine;
-mod gen;
-mod props;
-mod sim;
-
-use engine::*;
+use vcheck::engine::*;
+use vcheck::{alloc_count, props, sim};
 
 #[global_allocator]
 static GLOBAL: alloc_count::Counting = alloc_count::Counting;
